@@ -21,6 +21,9 @@ def skip_known_c15(cop, eff, g):
         receivers = len(lst) if kind != 'bulk_parent' else len([x for x in lst if g.ids[x] in cop[2]])
         if receivers >= 2:
             return 'F21'
+    if kind in ('dep_lshift', 'dep_rshift') and eff.cls != interp.LEGAL and is_open('F21'):
+        if len(g.preds[cop[1]] if cop[2] == 'preds' else g.succs[cop[1]]) >= 2:
+            return 'F21'
     if kind == 'new_task' and eff.cls != interp.LEGAL and is_open('F32'):
         given = [x for x in cop[2:6] if x is not None and x != () and x != []]
         if len(given) >= 2:
